@@ -233,6 +233,32 @@ pub fn interval(args: &[String]) {
         }
         out("iv", 100000 + case, &c, "stiff", key, &why, &extra);
     }
+    // a stiff problem on the explicit methods, long enough for the stiffness detector to stop the run (it looks at every
+    // 1000th accepted step): the counters of a run that ends ProbablyStiff
+    {
+        let mut k = 0;
+        for method in [Method::DOPRI5, Method::DOP853] {
+            for (xend, rtol) in [(12.0, 1e-6), (-9.0, 1e-5), (15.0, 1e-4)] {
+                let c = Cfg { kind: Kind::Stiff, method, x0: 0.0, xend, rtol, atol: rtol * 1e-3, first: None, maxstep: None, nmax: None };
+                let p = Prob::new(Kind::Stiff);
+                let b = Budgeted { p: &p, limit: 3_000_000, nan_after: None, jump_at: None, x0: 0.0 };
+                let res = catch_unwind(AssertUnwindSafe(|| solve_ivp(&b, 0.0, xend, &p.y0(), c.opts())));
+                let (mut why, mut key, mut extra) = (String::new(), "", String::new());
+                match res {
+                    Err(_) => { why = "solve_ivp panicked or exceeded the work budget".into(); key = "c04-hang-or-panic"; }
+                    Ok(Err(_)) => { extra = "\"status\":\"Err\",".into(); }
+                    Ok(Ok(sol)) => {
+                        extra = format!("\"status\":\"{:?}\",\"n\":{},\"naccpt\":{},\"nstep\":{},", sol.status, sol.t.len(), sol.naccpt, sol.nstep);
+                        if sol.nfev != p.count.get() { why = format!("nfev = {} but the stepper made {} right-hand-side evaluations", sol.nfev, p.count.get()); key = "c18-nfev"; }
+                        else if sol.naccpt != sol.t.len() - 1 { why = format!("status {:?}: naccpt = {} but {} intervals were reported", sol.status, sol.naccpt, sol.t.len() - 1); key = "c18-naccpt-stiff-exit"; }
+                        else if sol.nstep < sol.naccpt { why = format!("nstep {} < naccpt {}", sol.nstep, sol.naccpt); key = "c18-nstep"; }
+                    }
+                }
+                out("iv", 500000 + k, &c, "stiff-explicit", key, &why, &extra);
+                k += 1;
+            }
+        }
+    }
     // a first step that already covers the whole interval (first_step >= span): the landing step is the first trial step
     // and is usually rejected; the run must still end at xend
     {
